@@ -100,14 +100,36 @@ def ord_env(g: CFG, f: FuncInfo, name_a: str, name_b: str, ordering: str) -> dic
 
 # ----------------------------------------------------------------------------- Message actions
 def await_map(g: CFG) -> dict[int, Node]:
-    """call node id -> the await node whose operand is that call."""
+    """call node id -> the await node whose operand is that call (the copy that directly follows it)."""
     out: dict[int, Node] = {}
-    calls = {id(n.ast): n for n in g.nodes if n.kind == "call"}
+    by_ast: dict[int, list[Node]] = {}
     for n in g.nodes:
         if n.kind == "await" and isinstance(n.ast, ast.Await) and isinstance(n.ast.value, ast.Call):
-            c = calls.get(id(n.ast.value))
-            if c is not None:
-                out[c.id] = n
+            by_ast.setdefault(id(n.ast.value), []).append(n)
+    for c in g.nodes:
+        if c.kind != "call" or id(c.ast) not in by_ast:
+            continue
+        cands = by_ast[id(c.ast)]
+        if len(cands) == 1:
+            out[c.id] = cands[0]
+            continue
+        # several copies (finally blocks, inlining): take the one reachable first by normal edges
+        seen = {c.id}
+        todo = [c.id]
+        ids = {a.id: a for a in cands}
+        found = None
+        while todo and found is None:
+            x = todo.pop(0)
+            for y, k in g.succ[x]:
+                if k != "n" or y in seen:
+                    continue
+                if y in ids:
+                    found = ids[y]
+                    break
+                seen.add(y)
+                todo.append(y)
+        if found is not None:
+            out[c.id] = found
     return out
 
 
